@@ -640,6 +640,62 @@ impl E2 {
                 format!("levels:{}", s.join(" | "))
             }
             ["snapshots"] => format!("snapshots:{:?}", self.with_tree(|t| fe::snapshots(t)).unwrap()),
+            // C11: the value-log bookkeeping of the running store (directory listing, writer ids, every live table's
+            // oldest_vlog_file_id and stored values, the version index); stored values in the compact form of vp.rs
+            ["vlogdump"] => {
+                let d = match self.with_tree(|t| surrealkv::verif::vlogptr::vlog_state(t)) {
+                    Some(Ok(d)) => d,
+                    Some(Err(e)) => return format!("err:{}", e.replace(' ', "_")),
+                    None => return "err:closed".into(),
+                };
+                if !d.enabled {
+                    return "vlog:off".into();
+                }
+                let ents = |es: &Vec<(Vec<u8>, Vec<u8>)>| {
+                    es.iter().map(|(k, s)| format!("{}={}", bytes_to_hex(k), crate::vp::show_stored(s, true))).collect::<Vec<_>>().join(",")
+                };
+                let tables: Vec<String> = d.tables.iter().map(|t| format!("{}@{}/{}[{}]", t.id, t.level, t.oldest_vlog_file_id, ents(&t.entries))).collect();
+                format!(
+                    "vlog:files={};active={};next={};min={};tables={};index={}",
+                    d.files.iter().map(|(i, s)| format!("{}:{}", i, s)).collect::<Vec<_>>().join(","),
+                    d.active,
+                    d.next,
+                    d.min_oldest,
+                    tables.join("|"),
+                    match &d.index {
+                        None => "off".to_string(),
+                        Some(ix) => format!("[{}]", ents(ix)),
+                    }
+                )
+            }
+            // C11: a history cursor that STAYS OPEN (driven by `cur <cid> first|next|..`, closed by `curclose`): it keeps
+            // the table set it was opened on
+            ["histopen", id, cid, lo, hi, tomb] => {
+                let c = cid.parse::<u32>().unwrap();
+                if let Some(owner) = self.cur_owner.remove(&c) {
+                    if let Some(t) = self.txs.get_mut(&owner) {
+                        t.cursors.remove(&c);
+                    }
+                }
+                let n = id.parse::<u32>().unwrap();
+                match self.txs.get_mut(&n) {
+                    Some(t) => {
+                        let ho = HistoryOptions::new().with_tombstones(*tomb == "1");
+                        match t.tx.history_with_options(hex_to_bytes(lo), hex_to_bytes(hi), &ho) {
+                            Ok(it) => {
+                                let b: Box<dyn LSMIterator + '_> = Box::new(it);
+                                // SAFETY: as in open_cursor
+                                let cur = unsafe { std::mem::transmute::<Box<dyn LSMIterator + '_>, Cursor>(b) };
+                                t.cursors.insert(c, cur);
+                                self.cur_owner.insert(c, n);
+                                "ok".into()
+                            }
+                            Err(e) => format!("err:{}", err_name(&e)),
+                        }
+                    }
+                    None => "err:NoTxn".into(),
+                }
+            }
             _ => "bad-command".into(),
         }
     }
